@@ -11,7 +11,7 @@ statement appears that the model does not know, this file does not compile.
 namespace GoPlugin.Instance.C18
 open GoPlugin Resources Props.C18
 
-/-- Every edge the goroutine half needs is in the source, and the source has exactly the 28
+/-- Every edge the goroutine half needs is in the source, and the source has exactly the 32
 `go` statement sites the model accounts for. -/
 theorem facts_good_goroutines : Facts.resources.GoodGoroutines := by decide
 
